@@ -27,6 +27,8 @@ EXTENDS Integers, Sequences, FiniteSets, TLC
 CONSTANTS
     Accts,          \* key-holding accounts, e.g. {"a1","a2","a3"}
     FeeUnit,        \* umed per abstract fee unit (harness: 1000)
+    Deviations,     \* named deviations from the intended behaviour, {} everywhere except in simulation configs that want the
+                    \* generator (not the judge) to behave like a known-bad implementation, e.g. {"nulids"}
     MaxHeight       \* bound on block height in exhaustive configs
 
 BurnAcct == "burn"        \* the designated burn address
@@ -255,7 +257,7 @@ CustomTypes == {"aol.CreateTopic", "aol.AddWriter", "aol.DeleteWriter", "aol.Add
                 "pnft.Mint", "pnft.Transfer", "pnft.Burn"}
 
 \* abstract identifiers that stand for strings containing NUL, the x/nft store-key delimiter (harness: "a\0b", "b\0c")
-NulIds == {"nz", "iz"}
+NulIds == IF "nulids" \in Deviations THEN {} ELSE {"nz", "iz"}
 
 \* GetSigners of a message, in order
 Signers(m) ==
